@@ -18,18 +18,22 @@ C01-key-by-code-object-equality C14,C01
 C01-nested-import-counts-as-present C01,C03
 C01-pydantic-factory-field-skipped-when-unset C01
 C02-align-suffix-overlaps-prefix C02,C11
+C02-bound-fix-only-when-new-includes-old C02,C05
 C02-interrupted-session-skips-session-end C02
 C02-replace-range-from-ast-columns C02,C03
 C02-same-adapter-other-class C02
 C03-import-requirements-leak-across-files C03
+C03-line-table-from-str-splitlines C03
 C03-replace-range-from-ast-byte-columns C03,C02
 C03-rewrite-in-locale-encoding C03
 C03-whitespace-only-formatter-output-accepted C15,C03
 C04-bound-trim-tested-before-fix C04,C05
 C04-non-list-in-collection-replaced-as-fix C05,C04
 C04-pyproject-from-invocation-dir C04
+C04-report-diff-ignores-trailing-whitespace C02,C04
 C04-review-unasked-trim-removes-externals C04,C13
 C05-accessed-uncompared-key-trimmed C05
+C05-bound-trim-decided-before-fix C05,C04
 C05-clone-immutable-fast-path-tuples C17,C05
 C05-in-members-keyed-by-hash C05,C01
 C05-key-by-code-object-equality C14,C05
@@ -41,6 +45,7 @@ C07-eq-result-cached-per-snapshot-object C07,C06
 C07-failed-comparison-counted-only-for-False-singleton C07
 C07-skip-after-bad-snapshot-hides-failure C07
 C07-testing-helper-compares-in-nested-state C07
+C08-empty-sequence-fast-path-drops-tuple-comma C08,C02
 C08-evaluated-externals-protected-from-trim C08
 C08-generated-code-cached-by-equal-value C08
 C08-hasrepr-eq-uses-plain-repr C08,C01
@@ -52,6 +57,7 @@ C09-testing-helper-category-check-in-nested-state C07,C09
 C10-dict-value-node-by-observed-order C10,C11,C02
 C10-frames-released-after-each-test C10
 C10-star-kwargs-check-after-changes C10
+C10-undecided-re-eval-keeps-first-unmanaged-values C10
 C10-undecided-update-guard-always-true C10
 C11-call-arguments-always-value-adapter C11,C10
 C11-dict-same-keys-positional-nodes C11,C10,C02
@@ -64,12 +70,14 @@ C12-unescape-via-unicode-escape C12,C01
 C13-multi-part-suffix-never-persisted C13
 C13-outsource-existence-check-ignores-suffix C13
 C13-prune-new-files-only-when-active C13
+C13-snapshot-no-longer-registers-its-file C13
 C13-unused-externals-bucketed-by-hash-length C13
 C14-clone-shortcut-for-immutable-types C17,C14
 C14-empty-bound-keeps-last-value C14,C05
 C14-key-by-filename-name-offset C14
 C14-re-eval-zip-truncates-length-change C14
 C15-failed-format-command-output-used C15
+C15-new-files-pruned-after-collection C13,C15
 C15-persist-after-write C15
 C15-rewrite-in-locale-encoding-truncates C15,C03
 C15-storage-lookup-by-unescaped-glob C13,C15
@@ -83,8 +91,10 @@ C17-hashable-tuples-not-copied C17
 C17-in-check-skipped-for-identical-object C17
 C18-atomic-write-via-default-tempdir C18
 C18-bound-recheck-catches-only-typeerror C18
+C18-collected-modules-registered-before-import C18
 C18-file-of-snapshot-from-co-filename C18
 C18-remove-while-iterating-inner-replacements C18
+C19-black-result-cached-by-text-only C19
 C19-plugin-skips-category-without-new-changeset C19,C04
 C19-repeated-option-merged-by-plugin-only C19
 C19-rewrite-keeps-mtime C08,C19
